@@ -364,6 +364,7 @@ void sim_run_threads(const SchedCfg &cfg, const std::vector<std::function<void()
     out.decisions.assign(g_dec, g_dec + g_ndec);
     out.ndecisions = g_ndec; out.switches = g_switches; out.blocked = g_blocked; out.forced_unlock = g_forced; out.stalls = g_stalls;
     out.truncated = g_trunc; out.deadlock = g_deadlock; out.sim_us = g_sim_us.load() - us0;
+    out.leaked_depth = 0; for (int i = 0; i < NT; i++) out.leaked_depth += T[i].depth;
 }
 
 // ---- lock-step probe protocol (threads: 0 = driver, 1 = probe)
